@@ -121,6 +121,23 @@ def r151(ctx) -> None:
                                      for r in rnodes), fw, fw.node,
                 'file_write: content is written before the rename',
                 'the rename can happen before the content is written')
+        # ... and the temp file is CLOSED (flushed) before it is renamed
+        tmp_withs = [w for w in walk_local(fw.node)
+                     if isinstance(w, ast.With) and any(
+                         any(x is t for x in ast.walk(i.context_expr))
+                         for i in w.items for t in tmps)]
+        inside = [r.lineno for r in rnodes for w in tmp_withs
+                  if any(x is r.stmt for b in w.body for x in ast.walk(b))]
+        closed_manually = any(call_name(c) in ('close', 'flush', 'fsync')
+                              for c in calls_in(fw.node))
+        R.check((bool(tmp_withs) and not inside) or closed_manually, fw,
+                fw.node, 'file_write: the temp file is closed before the '
+                'rename',
+                f'os.rename at line(s) {inside} runs inside the `with '
+                f'NamedTemporaryFile` block, before the buffered content is '
+                f'flushed by close(): a crash between the rename and the '
+                f'close leaves an EMPTY (or truncated) control file in '
+                f'place of the old one')
 
 
 MUTATOR_NAMES = {'set', 'remove', 'add'}
@@ -354,6 +371,19 @@ def r156(ctx) -> None:
         R.ok(f, f.node, '__aenter__: no manual acquisition', 'uses async '
              'with')
         return
+    reads = cfg.find(lambda n: any(call_name(cc) in ('file_read',
+                                                     'file_open',
+                                                     'file_exists')
+                                   for cc in n.calls()))
+    early = [n.lineno for n in reads
+             if not cfg.dominated_by(n, acq, labels=NORMAL)]
+    R.check(not early, f, f.node, '_FileWriteWith.__aenter__: the file is '
+            'read only after the lock is held',
+            f'the control file is read at line(s) {early} BEFORE the write '
+            f'lock is acquired: the read-modify-replace is no longer one '
+            f'critical section, so a writer that waited for the lock writes '
+            f'back stale state (two APPENDs are both acknowledged with the '
+            f'same UID; the other record is lost)')
     risky = []
     for n in cfg.reach(acq, labels=NORMAL):
         if n.kind in ('stmt', 'test') and any(
